@@ -35,4 +35,6 @@ Definition g_resolve_kind_u (c : ucfg) (k : string) : ures udef := rk_interp res
 Definition unmarshal_source_ok : bool :=
   forallb snd unmarshal_groups && unmarshal_is_exactly_these &&
   forallb snd unmarshal_cause_groups && unmarshal_cause_is_exactly_these &&
+  forallb snd dispatch_groups && dispatch_is_exactly_these &&
+  forallb snd via_json_groups && via_json_is_exactly_these &&
   definition_from_message_is_resolve_kind && entry_decodes_then_unmarshals.
